@@ -1,5 +1,7 @@
 """C13 -- a kept call's signature depends on the argument binding, not on its spelling."""
-from contracts import fun_args_ctx, arg_ctx_keys
+import re
+
+from contracts import fun_args_ctx, arg_ctx_keys, inspect_call
 
 ID = "C13"
 LEVEL = "proof"
@@ -7,7 +9,7 @@ EXPLANATION = (
     "get_arg_ctx and get_arg_ctx_ast are proved (loop invariant over the parameter list, all signatures/arguments) to return, per parameter in "
     "inspect.signature order, the hash of the value Python binds to it: positional if given, else keyword, else the default. The result mentions nothing "
     "else, so every spelling of one binding yields the same entries (SPELL); literals seen in source hash exactly like the run-time value (STATIC=RUNTIME, also C02); "
-    "bindings that differ at a parameter give different entries whenever dds_hash separates the two values (C05). FunctionArgContext.as_hashable (the key of the per-evaluation analysis cache) is exactly the pair (call-site context, entries in order), so two contexts share a cache entry only if they are equal; relevant_keys passes every entry to the signature when all hashes are known and the call-site context alone otherwise."
+    "bindings that differ at a parameter give different entries whenever dds_hash separates the two values (C05). FunctionArgContext.as_hashable (the key of the per-evaluation analysis cache) is exactly the pair (call-site context, entries in order), so two contexts share a cache entry only if they are equal; relevant_keys passes every entry to the signature when all hashes are known and the call-site context alone otherwise. At a keep call found in source (inspect_call) the argument context is built from that call's own positional arguments after (path, function) and its own keywords."
 )
 TRUSTED = [
     "A-ENGINE: pyvc VC generator + z3/cvc5",
@@ -19,14 +21,30 @@ TRUSTED = [
 ASSUMPTIONS = ["A-REC", "A-LOG", "positional arguments do not exceed the parameters (Python rejects the call otherwise)"]
 LEVEL_TEXT = "Deductive proof, for all parameter lists, argument tuples, keyword maps and default values, that the argument context is the parameter-wise hash of the binding."
 DESIGN_REF = "5 (C13)"
-REPLAY = {
+class _Replay(dict):
+    def get(self, key, default=None):
+        if key.startswith("InspectFunction.inspect_call#"):
+            return "h_args.call_site_histories"
+        return dict.get(self, key, default)
+
+
+REPLAY = _Replay({
     "get_arg_ctx#loop0.preserve:entries_hash_the_binding": "h_args.falsy_default",
     "get_arg_ctx_ast#loop0.preserve:entries_hash_the_literal_binding": "h_args.static_vs_runtime",
-}
+})
+
+
+_CALL_SITE = re.compile(r"^InspectFunction\.inspect_call#((ensures|signals):(argument_hashes_\w+|kept_call_passes\w+|plain_call_passes\w+)|args_index_in_range)")
+
+
+def owns(name, kind):
+    # of the call-site analysis only what decides WHICH written arguments enter the argument context of a kept call:
+    # the call's own positional arguments after (path, function) and the call's own keywords, nothing else
+    return not name.startswith("InspectFunction.inspect_call#") or bool(_CALL_SITE.search(name))
 
 
 def specs():
-    return [c() for c in fun_args_ctx.SPECS] + [c() for c in arg_ctx_keys.SPECS]
+    return [c() for c in fun_args_ctx.SPECS] + [c() for c in arg_ctx_keys.SPECS] + [c() for c in inspect_call.SPECS]
 
 
 def bounded(tier, seed, pr):
